@@ -105,7 +105,9 @@ pub fn check_c03(sc: &H1Scenario, out: &H1Out) -> Vec<Violation> {
         let own_end_read = pl.get(j).and_then(|n| layout.get(n.req_idx)).and_then(|l| read_step_of(co, l.2.saturating_sub(1))).unwrap_or(0);
         // … and its body stream has been polled to the end (for HEAD the head is the whole response)
         let body_done = pl.get(j).and_then(|n| n.seen_idx).and_then(|k| co.bodies.get(k)).and_then(|b| b.dropped).map(|d| d.1).unwrap_or(0);
-        let idle_from = close_done.max(own_end_read).max(body_done);
+        // (when the close is *because* the request body was left unread, the server does not wait
+        // for the rest of that body: it may shut down as soon as the response is out)
+        let idle_from = if cause == "request-body-left-unread" { close_done.max(body_done) } else { close_done.max(own_end_read).max(body_done) };
         // … and the connection task has been parked since (nothing runnable, no flush outstanding):
         // from that point on the server has had every chance to act on the close
         let idle_from = co.parked_steps.iter().copied().find(|s| *s >= idle_from).unwrap_or(u64::MAX);
